@@ -1013,8 +1013,10 @@ pub fn gen_c12(rng: &mut Rng) -> Value {
             18 => json!({"k":"api","op":"remove","key":ki}),
             19 => json!({"k":"api","op":"remove_hash","addr":{"val":vi,"algo":"sha256"}}),
             20 => json!({"k":"api","op":"remove_opts","fully":true,"key":ki}),
+            21 if rng.chance(1, 3) => json!({"k":"api","op":"clear"}),
             21 => json!({"k":"api","op":"list"}),
             22 => json!({"k":"env","act":"flip_frac","content":{"val":vi,"algo":"sha256"},"num":rng.below(1000),"bit":rng.below(8)}),
+            _ if rng.chance(1, 3) => json!({"k":"env","act":"append_record","bucket":ki,"rec":{"key":keys[ki].clone(),"integrity":*rng.pick(&["md5-1B2M2Y8AsgTpgAmY7PhCfg==", "garbage", "sha256"]),"time":1,"size":0,"metadata":null,"raw_metadata":null}}),
             _ => json!({"k":"env","act":"insert_line","bucket":ki,"boundary":rng.below(4),"hex": if rng.chance(1,2) { "fffec3".to_string() } else { hex::encode(garbage_line(rng)) }}),
         };
         steps.push(st);
